@@ -17,6 +17,7 @@ blocked goroutines are eventually scheduled.
 -/
 import FhVerif.Proofs.ServerCounters
 import FhVerif.Gen.PerIPClose
+import FhVerif.Gen.WpCount
 
 namespace Fh.Props.C12
 open Fh Fh.Wsum Fh.Model.Srv Fh.Proofs.Srv
@@ -302,6 +303,25 @@ theorem close_always_reaches_unregister :
     Gen.perIPTLSConn_Close_unregisterTopLevel = true ∧ Gen.perIPTLSConn_Close_earlyReturnGuards = ["cc == nil"] := by
   decide
 
+/-- **Idle retirement cannot raise the capacity.**  In every reachable state — in particular after the cleaner
+    retired idle workers (`cleanIdle`) and after retired workers left (`workerExit`), in any interleaving with accepts
+    and releases — a pool's `workersCount` is exactly its idle + retiring + busy workers and never exceeds
+    `Concurrency`; so at most `Concurrency - busy` further connections can be handed to workers. -/
+theorem pool_accounting (cfg : Cfg) (evs : List Ev) (s : State)
+    (hr : run (State.init cfg) evs = some s) (p : Nat) (pl : Pool) (hp : s.pools[p]? = some pl) :
+    pl.workers = pl.idle + pl.stopping + wsum (wBusy p) s.conns ∧ pl.workers ≤ cfg.C := by
+  obtain ⟨hinv, _, hcfg⟩ := reach hr
+  have := hinv.pool p pl hp
+  rw [hcfg] at this
+  exact this
+
+/-- The shape of workerpool.go the pool accounting relies on, regenerated on every run: `workersCount` is written in
+    exactly two places — `++` when `getCh` starts a worker, `--` when a worker's goroutine leaves `workerFunc`.
+    (`clean` and `Stop` only tell workers to stop; the model's `cleanIdle` leaves `workers` alone and `workerExit` /
+    `workerRelease` under `mustStop` are that one decrement.) -/
+theorem workersCount_written_in_two_places : Gen.wpWorkersCountWrites = ["getCh:++", "workerFunc:--"] := by
+  decide
+
 /-- **Balance.**  Once every connection has been rejected, or served and closed (a hijacked one: closed by
     `hijackConnHandler` or by its owner), the gauge is 0, every per-IP count is 0 and `s.open` equals the number of
     running `Serve` accept loops. -/
@@ -392,5 +412,24 @@ example : ((run (State.init ⟨1, 0, false⟩)
     [.direct 0, .conn 0 .skipWrap, .conn 0 .acqAdd, .conn 0 .acqDecide, .conn 0 .openInc, .conn 0 .startServing,
      .serveStart, .accept 0 0, .conn 1 .skipWrap, .conn 1 .openInc, .conn 1 .getCh, .conn 1 .concInc]).map fun s =>
       (servingAll s, servingOn s .direct, servingOn s (.serve 0), s.conc)) = some (2, 1, 1, 2) := by decide
+
+/-- Concurrency 1, one `Serve` loop: a connection is served and closed, the cleaner retires the idle worker, the worker
+    leaves; of the next two connections only one is handed to a (new) worker, the other finds none -/
+example : ((run (State.init ⟨1, 0, false⟩)
+    [.serveStart, .accept 0 0, .conn 0 .skipWrap, .conn 0 .openInc, .conn 0 .getCh, .conn 0 .concInc,
+     .conn 0 .cleanupOpen, .conn 0 .cleanupConc, .conn 0 (.closeConn false), .conn 0 .workerRelease,
+     .cleanIdle 0, .workerExit 0,
+     .accept 0 0, .conn 1 .skipWrap, .conn 1 .openInc, .conn 1 .getCh, .conn 1 .concInc,
+     .accept 0 0, .conn 2 .skipWrap, .conn 2 .openInc, .conn 2 .getCh]).map fun s =>
+      (s.pools.map (fun pl => (pl.workers, pl.idle, pl.stopping)), s.conns.map (·.phase), servingAll s)) =
+    some ([(1, 0, 0)], [.done .served, .serving, .noWorker], 1) := by decide
+
+/-- between the cleaner's stop request and the worker's exit the slot is still taken: a connection arriving then is
+    refused although nothing is being served (the transient the harness's validator has to allow for) -/
+example : ((run (State.init ⟨1, 0, false⟩)
+    [.serveStart, .accept 0 0, .conn 0 .skipWrap, .conn 0 .openInc, .conn 0 .getCh, .conn 0 .concInc,
+     .conn 0 .cleanupOpen, .conn 0 .cleanupConc, .conn 0 (.closeConn false), .conn 0 .workerRelease,
+     .cleanIdle 0, .accept 0 0, .conn 1 .skipWrap, .conn 1 .openInc, .conn 1 .getCh]).map fun s =>
+      (s.conns.map (·.phase), servingAll s)) = some ([.done .served, .noWorker], 0) := by decide
 
 end Fh.Props.C12
